@@ -3,6 +3,7 @@
 // prints `<id>\t<canonical observation>` per line (see canon.rs for the grammar).
 #![allow(unused)]
 mod canon;
+mod mode_fsm;
 use canon::*;
 use mech_core::*;
 use mech_interpreter::*;
@@ -171,25 +172,26 @@ fn mode_step(j: &J) -> String {
   format!("(stepobs {} {} (singles {}) {} {} (batch {} {}) {})", ra, s0, singles.join(" "), rb, b0, r, bk, if want_plan { plan_dump(&a) } else { "(plan)".to_string() })
 }
 
-fn run_bytes(bytes: &[u8]) -> (String, String, String) {
-  // returns (load, reencode, run)
+fn run_bytes(bytes: &[u8]) -> (String, String, String, String) {
+  // returns (load, reencode, run, instrs)
   let pp = match catch_unwind(|| ParsedProgram::from_bytes(bytes)) {
     Ok(Ok(p)) => p,
-    Ok(Err(e)) => return (errs(&e), "(na)".into(), "(na)".into()),
-    Err(_) => return ("(panic load)".into(), "(na)".into(), "(na)".into()),
+    Ok(Err(e)) => return (errs(&e), "(na)".into(), "(na)".into(), "(instrs)".into()),
+    Err(_) => return ("(panic load)".into(), "(na)".into(), "(na)".into(), "(instrs)".into()),
   };
   let re = match catch_unwind(AssertUnwindSafe(|| pp.to_bytes())) {
-    Ok(Ok(b)) => if b == bytes { "(same)".to_string() } else { format!("(differs {})", qstr(&hex(&b))) },
+    Ok(Ok(b)) => if b == bytes { "(same)".to_string() } else { format!("(differs {})", b.len()) },
     Ok(Err(e)) => errs(&e),
     Err(_) => "(panic reencode)".to_string(),
   };
+  let instrs: Vec<String> = pp.instrs.iter().map(instr_sx).collect();
   let mut i2 = Interpreter::new(1);
   let run = match catch_unwind(AssertUnwindSafe(|| i2.run_program(&pp))) {
     Ok(Ok(v)) => canon(&v),
     Ok(Err(e)) => errs(&e),
     Err(_) => "(panic run)".to_string(),
   };
-  ("(ok)".into(), re, run)
+  ("(ok)".into(), re, run, format!("(instrs {})", instrs.join(" ")))
 }
 
 fn mode_bytecode(j: &J) -> String {
@@ -197,16 +199,17 @@ fn mode_bytecode(j: &J) -> String {
   let mut intrp = Interpreter::new(0);
   let r = eval(&mut intrp, src);
   if r.starts_with("(perr") || r.starts_with("(err") || r.starts_with("(panic") {
-    return format!("(bc {} (na) (na) (na) (na) \"\")", r);
+    return format!("(bc {} (na) (na) (na) (na) (instrs) (plan) \"\")", r);
   }
+  let plan = if j.get("plan").is_some() { plan_dump(&intrp) } else { "(plan)".to_string() };
   let bc = match catch_unwind(AssertUnwindSafe(|| intrp.compile())) {
     Ok(Ok(b)) => b,
-    Ok(Err(e)) => return format!("(bc {} {} (na) (na) (na) \"\")", r, errs(&e)),
-    Err(_) => return format!("(bc {} (panic compile) (na) (na) (na) \"\")", r),
+    Ok(Err(e)) => return format!("(bc {} {} (na) (na) (na) (instrs) {} \"\")", r, errs(&e), plan),
+    Err(_) => return format!("(bc {} (panic compile) (na) (na) (na) (instrs) {} \"\")", r, plan),
   };
-  let (load, re, run) = run_bytes(&bc);
+  let (load, re, run, instrs) = run_bytes(&bc);
   let want_hex = j.get("hex").and_then(|x| x.as_bool()).unwrap_or(false);
-  format!("(bc {} (ok {}) {} {} {} {})", r, bc.len(), load, re, run, qstr(&if want_hex { hex(&bc) } else { String::new() }))
+  format!("(bc {} (ok {}) {} {} {} {} {} {})", r, bc.len(), load, re, run, instrs, plan, qstr(&if want_hex { hex(&bc) } else { String::new() }))
 }
 
 fn instr_sx(i: &DecodedInstr) -> String {
@@ -276,6 +279,7 @@ fn main() {
       "step" => mode_step(&j),
       "bytecode" => mode_bytecode(&j),
       "loader" => mode_loader(&j),
+      "fsm" => mode_fsm::mode_fsm(&j),
       _ => "(badmode)".to_string(),
     };
     writeln!(out, "{}\t{}", id, r).ok();
